@@ -7,7 +7,8 @@ pub struct ZobristHistory {
 
 impl ZobristHistory {
     pub fn set(&mut self, index: u16, zobrist_hash: ZobristHash) {
-        self.history[index as usize] = zobrist_hash;
+        let len = self.history.len();
+        self.history[index as usize % len] = zobrist_hash;
     }
 
     pub fn count_repetitions(&self, start_index: u16, halfmove_clock: u16) -> usize {
@@ -17,12 +18,13 @@ impl ZobristHistory {
 
         let mut current_index = start_index as i32 - 4;
         let mut repetitions = 1_usize;
-        let zobrist = self.history[start_index as usize];
+        let len = self.history.len();
+        let zobrist = self.history[start_index as usize % len];
 
         let min_index = max(0, start_index as i32 - halfmove_clock as i32);
 
         while current_index >= min_index {
-            let current_zobrist = self.history[current_index as usize];
+            let current_zobrist = self.history[current_index as usize % len];
             if current_zobrist == zobrist {
                 repetitions += 1;
 
